@@ -38,9 +38,16 @@ WrKinds == {"wr_opadd", "wr_opsub", "wr_opmul", "wr_modify", "wr_opadd_loop", "w
 (* still denotes the module-level variable, and that is the one they share - with the owner, with each other, and with the   *)
 (* literals of a second run of the maker                                                                                    *)
 LateKinds == {"late_local", "late_counter", "late_typed"}
+(* seventh family: every level of a recursion creates closures over its own parameter and they escape into a list: each     *)
+(* level has its own variables, whether the recursive call is in tail position (`return self(..)`) or not; a `modify`       *)
+(* through one level's writer is seen by that level's reader only                                                           *)
+RecKinds == {"rec_tail", "rec_plain"}
+(* eighth family: the literal runs a `from` loop whose counter is spelled like the captured variable, and uses the name again *)
+(* after the loop: the counter is a variable of the loop, the captured variable is untouched and visible again              *)
+CntKinds == {"cnt_shadow_read", "cnt_shadow_modify"}
 
 VARIABLES pos, modx
-Init == pos \in Positions \cup ModKinds \cup ClosKinds \cup DrvKinds \cup RecvKinds \cup WrKinds \cup LateKinds /\ modx \in BOOLEAN
+Init == pos \in Positions \cup ModKinds \cup ClosKinds \cup DrvKinds \cup RecvKinds \cup WrKinds \cup LateKinds \cup RecKinds \cup CntKinds /\ modx \in BOOLEAN
 Next == UNCHANGED <<pos, modx>>
 
 FT == "fn() -> int"
@@ -217,7 +224,39 @@ LateProg ==
     \o (IF modx THEN <<Let("fs2", Call(V("mk"), <<>>)), Let("wr2", Idx(V("fs2"), V("z1"))), Print(Call(V("wr2"), <<>>)), Print(X), Print(Call(V("rd"), <<>>))>> ELSE <<>>)
     \o <<Print(S("end"))>>
 
+RecProg ==
+    <<LetT("rds", "[" \o FT \o "...]", List(<<>>)), LetT("wrs", "[" \o FT \o "...]", List(<<>>))>> \o
+    (IF modx THEN <<Let("n", I(500))>> ELSE <<>>) \o
+    <<Let("mk", Fn("mk", <<P("n", "int")>>, "int",
+                   <<ExprS(MCall(V("rds"), "push", <<Fn("rd", <<>>, "int", <<Ret(Bin("*", V("n"), I(11)))>>)>>)),
+                     ExprS(MCall(V("wrs"), "push", <<Fn("wr", <<>>, "int", <<Modify("n", Bin("+", V("n"), I(100))), Ret(V("n"))>>)>>)),
+                     If(Bin("<=", V("n"), I(1)), <<Ret(I(0))>>)>>
+                   \o (IF pos = "rec_tail" THEN <<Ret(Call(Self, <<Bin("-", V("n"), I(1))>>))>>
+                       ELSE <<Let("r", Call(Self, <<Bin("-", V("n"), I(1))>>)), Ret(Bin("+", V("r"), I(1)))>>))),
+      Print(Call(V("mk"), <<I(3)>>)), Let("z0", I(0)), Let("z1", I(1)), Let("z2", I(2)),
+      Let("r0", Idx(V("rds"), V("z0"))), Let("r1", Idx(V("rds"), V("z1"))), Let("r2", Idx(V("rds"), V("z2"))), Let("w1", Idx(V("wrs"), V("z1"))),
+      Print(Call(V("r0"), <<>>)), Print(Call(V("r1"), <<>>)), Print(Call(V("r2"), <<>>)),
+      Print(Call(V("w1"), <<>>)), Print(Call(V("r0"), <<>>)), Print(Call(V("r1"), <<>>)), Print(Call(V("r2"), <<>>))>>
+    \o (IF modx THEN <<Print(V("n"))>> ELSE <<>>) \o <<Print(S("end"))>>
+
+CntProg ==
+    (IF modx THEN <<Let("x", I(50))>> ELSE <<>>) \o
+    <<Let("mk", Fn("mk", <<>>, "[" \o FT \o "...]",
+                   <<Let("x", I(300)),
+                     Let("lit", Fn("lit", <<>>, "int",
+                         <<Let("acc", I(0)), From(I(0), I(3), FALSE, <<>>, "x", <<Assign(V("acc"), "+", X)>>)>>
+                         \o (IF pos = "cnt_shadow_modify" THEN <<Modify("x", Bin("+", X, I(1)))>> ELSE <<>>)
+                         \o <<Ret(Bin("+", X, V("acc")))>>)),
+                     Let("bump", Fn("bump", <<>>, "int", <<Modify("x", Bin("+", X, I(10))), Ret(X)>>)),
+                     Ret(List(<<V("lit"), V("bump")>>))>>)),
+      Let("fs", Call(V("mk"), <<>>)), Let("z0", I(0)), Let("z1", I(1)),
+      Let("f", Idx(V("fs"), V("z0"))), Let("b", Idx(V("fs"), V("z1"))),
+      Print(Call(V("f"), <<>>)), Print(Call(V("b"), <<>>)), Print(Call(V("f"), <<>>)), Print(Call(V("b"), <<>>))>>
+    \o (IF modx THEN <<Print(X)>> ELSE <<>>) \o <<Print(S("end"))>>
+
 Prog ==
+    IF pos \in RecKinds THEN RecProg ELSE
+    IF pos \in CntKinds THEN CntProg ELSE
     IF pos \in LateKinds THEN LateProg ELSE
     IF pos \in ClosKinds THEN ClosProg ELSE
     IF pos \in WrKinds THEN WrProg ELSE
